@@ -124,7 +124,7 @@ pub fn run(ctx: &Ctx) -> Report {
     );
     let j: Judge = &judge;
     for (name, jobs) in sets::schedule_jobs_level(if ctx.quick() { 0 } else { 1 }, &|s| s) {
-        if ctx.quick() && name.starts_with("tiny") {
+        if ctx.quick() && name.starts_with("tiny parblock") {
             continue; // the d<=2 search on the tiny scenario is C06's and C18's in the quick tier (time budget)
         }
         let st = explore(&ctx.pool, jobs, j);
